@@ -178,6 +178,7 @@ def contracts(adjacencies):
                 S.kinds = {name: ("tok:" if k == TOKV else "nt:") + sym for k, name, sym in kids}
             c = V.Contract(f"celpy.celparser:DumpAST.{node}", args, invoke=invoke, native=native, ret=post, exc={}, cover=False,
                            name=f"DumpAST.{sig}@{'deep' if prefix else 'empty'}", setup=setup)
+            c.standin = False       # the clause inspects the structure of the symbolic text (which parts are children's texts); the CPython cross-check replays every path
             cons.append(c)
     return cons, passthrough, prods
 
